@@ -880,11 +880,21 @@ class Inliner:
                 tmpname = "_sv_cond"
                 st = lambda: ast.Name(id=tmpname, ctx=ast.Store())  # noqa: E731
                 ld = lambda: ast.Name(id=tmpname, ctx=ast.Load())  # noqa: E731
-                rep = self._expand_call(call, cls, caller_q, assign_to([st()]))
-                if rep is None:
-                    return None
                 if neg:
-                    rep = rep + [ast.Assign(targets=[st()], value=ast.UnaryOp(op=ast.Not(), operand=ld()), type_comment=None)]
+                    # `not helper(x)`: the helper's verdict goes into its own flag and the chain flag is set from it by
+                    # constant assignments under a test (flags defined by constants are what the path analyses follow;
+                    # `flag = not flag` is not)
+                    hname = "_sv_pred"
+                    rep = self._expand_call(call, cls, caller_q, assign_to([ast.Name(id=hname, ctx=ast.Store())]))
+                    if rep is None:
+                        return None
+                    rep = rep + [ast.If(test=ast.Name(id=hname, ctx=ast.Load()),
+                                        body=[ast.Assign(targets=[st()], value=ast.Constant(value=False), type_comment=None)],
+                                        orelse=[ast.Assign(targets=[st()], value=ast.Constant(value=True), type_comment=None)])]
+                else:
+                    rep = self._expand_call(call, cls, caller_q, assign_to([st()]))
+                    if rep is None:
+                        return None
 
                 def chain(parts):
                     if len(parts) == 1:
